@@ -2,6 +2,7 @@
 """Regenerates MANIFEST.json from the table below (keeps it valid at all times)."""
 import json, subprocess
 HOOK_COMMITS = ["b5f9d2d"]
+FIX_COMMITS = ["0b9f86a", "6aba424"]
 CLAIMED = {
  "C02": dict(cat="exploration", ref="§5 C02",
    text="Deterministic simulation of the whole program against generated data directories: the (chain length T<=10) x option-shape x callback grid is enumerated completely (2.9k scenarios), high heights (VarInt width boundaries, up to 4M) and long chains are sampled under benign I/O perturbation. Marker blocks make every output row reveal its height, so 'exactly s..min(e,T), once, ascending' is read off the real outputs of all five callbacks.",
@@ -31,6 +32,10 @@ CLAIMED = {
    text="Same history simulation with address reuse; balances must equal the reference group-by-sum at every prefix, and must equal the aggregation of the program's own unspent dump produced from the same data directory and range (two whole-program runs related by an invariant).",
    note="Values kept below 2^64 in total (overflow is outside the statement). Same trusted base as C07.",
    tech="deterministic simulation of operation histories: reference model + cross-run conservation invariant (balances = aggregate(unspent))"),
+ "C10": dict(cat="fault_enumeration", ref="§5 C10, §4",
+   text="Fault enumeration inside the real process: for every sampled world x file-producing callback x writer capacity, every height x input-fault kind (file removed/emptied/truncated at six positions/offset past EOF), EIO on every blk read event, every output size limit (all values for small outputs, all write boundaries +-1 otherwise), ENOSPC/EIO at every write event incl. the final buffered flush, failure of every rename, and process abort before every I/O event and inside every write are each executed as one simulated run and judged (exit status, reported height, final-named files, untouched foreign files, no partial final file, on-disk size of the source at each rename). The kill abstraction is exact w.r.t. the dump folder because all file operations are issued by one thread in program order.",
+   note="Trusted: the simio seam executes the plan faithfully; abort() stands for SIGKILL; power-loss durability (fsync) is not modelled (not in the property). Worlds are sampled; per world the fault dimensions listed are complete up to the stated caps (120 write events / 250 crash points per run, sampled beyond, reported by probes).",
+   tech="deterministic simulation with fault injection: planned I/O faults and crash points addressed by global event index, enumerated per sampled world; oracle over exit status, stderr, directory state and the I/O trace"),
 }
 PENDING_REASON = "check not built yet in this revision (claimed in DESIGN.md; will move to checks when its oracle is registered)"
 ALL = ["C%02d" % i for i in range(1, 18)]
